@@ -33,6 +33,15 @@ Theorem C08_no_local : forall sp pq pr, sp_nl sp = true -> deliveries false true
 Proof. intros sp pq pr H. unfold deliveries, collect_each. cbn. rewrite H. reflexivity. Qed.
 Print Assumptions C08_no_local.
 
+(* a retained message sent because of a subscription: RETAIN=1, QoS min(stored, granted), DUP=0 and
+   exactly that subscription's identifier *)
+Theorem C08_retained_on_subscribe : forall sp rq,
+  let d := retained_delivery sp rq in
+  d_retain d = true /\ d_dup d = false /\ d_qos d = N.min rq (sp_qos sp) /\
+  d_ids d = (if 0 <? sp_id sp then [sp_id sp] else []).
+Proof. intros sp rq. cbn. repeat split. Qed.
+Print Assumptions C08_retained_on_subscribe.
+
 Example C08_nonvacuous :
   deliveries false false [mkSP 0 false false 0 7; mkSP 2 false true 0 0; mkSP 1 true false 0 9] 2 true =
     [mkD 0 false false [7]; mkD 2 true false []; mkD 1 false false [9]] /\
